@@ -7,7 +7,7 @@ ID = "C19"
 LEVEL = "exploration"
 TECHNIQUE = "inline shadow monitor on hooked VM state (data words vs live frame geometry) at every instruction boundary, under ASan+UBSan"
 FLAVOURS = [("asan", "generated")]
-RULE = ("call-heavy generated programs (calls inside long loops, nested and chained calls, STOP inside callees, jumps out of loops; plus call chains 130-300 activations deep and routines with hundreds of registers / parameters); half of them with reset() in the middle of the run (also inside callees) "
+RULE = ("call-heavy generated programs (calls inside long loops, nested and chained calls, STOP inside callees, jumps out of loops; plus call chains 130-1100 activations deep and routines with hundreds of registers / parameters); half of them with reset() in the middle of the run (also inside callees) "
         "followed by a rerun, a third driven with stepping mode on and a fifth with every breakpoint enabled, the final HALT really dispatched; "
         "the driver checks after EVERY executed instruction (also between PREPARE and EXEC and right after RET) that the frames are "
         "contiguous from word 0 in call order and that the number of data words equals the sum of the live frame sizes; "
@@ -57,7 +57,7 @@ def make_cases(spec):
         cases.append({"mode": "run", "main": "main", "files": {"main": text}, "opts": opts})
     if spec["chunk"] < 3:
         # deep call chains (130-300 activations alive at once), routines with hundreds of registers / parameters / definitions
-        for files, main, kind in programs.scale_sources(r, small=spec["chunk"] == 0):
+        for files, main, kind in programs.scale_sources(r, small=spec["chunk"] == 0, large=spec["chunk"] == 1):
             if any(w in kind for w in ("call-chain", "definitions", "parameters", "locals", "macro-call")):
                 opts = [("budget", spec["budget"]), ("program", 0), ("via_execute", 0)]
                 if spec["chunk"] == 1:
